@@ -622,17 +622,24 @@ class Gen:
             rng.shuffle(a)
             ops += a
         elif sc < 0.6:
-            # suspended query across a load
+            # suspended query across a change of its definitions
             name, n = self.name_ar()
-            for _ in range(rng.choice([0, 1, 2])):
+            for _ in range(rng.choice([0, 0, 1, 2])):
                 ops.append(['assert', name, [rng.choice(ATOMS) for _ in range(n)], True])
-            ops.append(self.op_load(keys=[(name, n)], overwrite=True, fail=False))
+            for _ in range(rng.choice([1, 2, 2, 3])):
+                ops.append(self.op_load(keys=[(name, n)], overwrite=rng.random() < 0.35, fail=False))
             ops.append(['start', name, n])
             i = self.nsusp
             self.nsusp += 1
             for _ in range(rng.choice([0, 1, 1, 2, 3])):
                 ops.append(['next', i])
-            ops.append(self.op_load(keys=[(name, n)], overwrite=rng.random() < 0.6, fail=False))
+            r = rng.random()
+            if r < 0.7:
+                ops.append(self.op_load(keys=[(name, n)], overwrite=rng.random() < 0.4, fail=False))
+            elif r < 0.85:
+                ops.append(self.op_reg(name, n, rng.choice(['infer', 'explicit'])))
+            else:
+                ops.append(['clear'])
             for _ in range(rng.choice([1, 2, 3])):
                 ops.append(['next', i])
         while len(ops) < nops:
@@ -653,6 +660,10 @@ class Gen:
                 ops.append(['next', rng.randrange(self.nsusp)])
             elif self.nsusp:
                 ops.append(['close', rng.randrange(self.nsusp)])
+        # suspended calls are eventually resumed until they end
+        for i in range(self.nsusp):
+            if rng.random() < 0.8:
+                ops += [['next', i]] * rng.choice([2, 4, 6, 8])
         return ops
 
 def probes_of(ops, rng=None, cap=12):
@@ -693,7 +704,7 @@ def probes_of(ops, rng=None, cap=12):
     return seen[:cap]
 
 def gen(rng, tier):
-    n = 260 if tier == 'quick' else 5000
+    n = 260 if tier == 'quick' else 3000
     cases = []
     for _ in range(n):
         g = Gen(rng)
@@ -762,6 +773,9 @@ def builtin_corpus():
     case([['assert', 'p', ['f1'], True], load([df('p', 1, d1)], True), ['start', 'p', 1], ['start', 'p', 1],
           ['next', 0], ['next', 0], ['next', 1], load([df('p', 1, d3)], True), ['assert', 'p', ['f2'], True],
           ['next', 0], ['next', 0], ['next', 1], ['next', 1], ['next', 1], ['clear'], ['start', 'p', 1], ['next', 2]])
+    # a call suspended in a chain while a further script is combined: it keeps the chain it resolved
+    case([load([df('p', 1, d1)], False), load([df('p', 1, d3)], False), ['start', 'p', 1], ['next', 0],
+          load([df('p', 1, d2)], False), ['next', 0], ['next', 0], ['next', 0], ['next', 0], ['start', 'p', 1]] + [['next', 1]] * 6)
     # suspended inside a body: the inner call made after the load sees the new definition
     case([load([df('q', 1, d1), df('r', 1, d3), df('p', 2, D(2, (0, [c('q', 0), c('r', 1)])))], True), ['start', 'p', 2], ['next', 0],
           load([df('r', 1, d1)], False), ['next', 0], ['next', 0], ['next', 0], ['next', 0], ['next', 0], ['close', 0], ['next', 0]])
